@@ -6,6 +6,7 @@ import (
 	"regexp"
 	"runtime"
 	"strings"
+	"sync"
 	"sync/atomic"
 	"time"
 )
@@ -68,14 +69,20 @@ func ParseDump(dump string) []G {
 	return gs
 }
 
+var stackBuf = struct {
+	mu  sync.Mutex
+	buf []byte
+}{buf: make([]byte, 64<<10)}
+
 func AllStacks() string {
-	buf := make([]byte, 1<<20)
+	stackBuf.mu.Lock()
+	defer stackBuf.mu.Unlock()
 	for {
-		n := runtime.Stack(buf, true)
-		if n < len(buf) {
-			return string(buf[:n])
+		n := runtime.Stack(stackBuf.buf, true)
+		if n < len(stackBuf.buf) {
+			return string(stackBuf.buf[:n])
 		}
-		buf = make([]byte, 2*len(buf))
+		stackBuf.buf = make([]byte, 2*len(stackBuf.buf))
 	}
 }
 
